@@ -390,6 +390,9 @@ func (g *Gate) execute(id int, p *pendingRPC, f *Fault) (rpcResult, bool) {
 		}
 	}
 	rs, re, haveRegion := w.regionRange(p.req.Context.RegionId)
+	if w.lean != nil {
+		w.lean.last = ""
+	}
 	resp, err := g.guarded(id, p, Hx(rs)+" "+Hx(re))
 	line := ""
 	executed := false
@@ -407,7 +410,12 @@ func (g *Gate) execute(id int, p *pendingRPC, f *Fault) (rpcResult, bool) {
 			line = fmt.Sprintf("norpc %d %s rpcerr %s", id, c.name, p.cmd)
 		default:
 			executed = true
-			line = fmt.Sprintf("%d %s %s %s %s => %s", id, c.name, Hx(rs), Hx(re), p.cmd, RenderResp(p.req, resp))
+			ans := RenderResp(p.req, resp)
+			if w.lean != nil && w.lean.last != "" {
+				// profile full: the recorded answer is the Lean store's own answer line
+				ans = w.lean.last
+			}
+			line = fmt.Sprintf("%d %s %s %s %s => %s", id, c.name, Hx(rs), Hx(re), p.cmd, ans)
 		}
 	}
 	if executed && f != nil && (f.Kind == DropAfter || f.Kind == CrashAfter) {
@@ -532,6 +540,9 @@ func (gc *gateClient) SetEventListener(l tikv.ClientEventListener) {}
 func (gc *gateClient) SendRequest(ctx context.Context, addr string, req *tikvrpc.Request, timeout time.Duration) (*tikvrpc.Response, error) {
 	g := gc.g
 	kind, cmd := RenderReq(req)
+	if g.w.lean != nil {
+		kind, cmd = fullCmd(req)
+	}
 	p := &pendingRPC{c: gc.c, ctx: ctx, addr: addr, req: req, timeout: timeout, inner: gc.inner, done: make(chan rpcResult, 1), kind: kind, cmd: cmd}
 	g.mu.Lock()
 	if g.stopped {
